@@ -12,7 +12,8 @@ Definition internal_msg : list Z := s2z "Internal Server Error".
 
 Lemma aexit_constants :
   aexit_exception = (2, Some internal_msg) /\ aexit_unary_missing = (2, Some internal_msg) /\
-  aexit_normal = (0, None) /\ deadline_status_failed = 4 /\ deadline_status_cancelled = 4 /\ status_ok = 0.
+  aexit_normal = (0, None) /\ deadline_status_failed = 4 /\ deadline_status_cancelled = 4 /\ status_ok = 0 /\
+  aexit_grpc_ok_unary_as_exception = true.
 Proof. repeat split; reflexivity. Qed.
 
 (* order, guards, HTTP status, grpc-status and message of the early aborts of request_handler *)
@@ -259,7 +260,9 @@ Proof.
   { intros st m. pose proof (send_trailing_closed c s st m Hc) as G.
     destruct (send_trailing c s st m) as [[a b] d]. exact G. }
   destruct e as [[st m| |]|]; try apply G; try reflexivity.
-  destruct (negb (server_streaming c) && negb (msg_done s)); apply G.
+  - destruct (aexit_grpc_ok_unary_as_exception && (st =? status_ok) && negb (server_streaming c) && negb (msg_done s));
+      apply G.
+  - destruct (negb (server_streaming c) && negb (msg_done s)); apply G.
 Qed.
 
 Lemma aexit_inv c s e m s' out :
@@ -273,20 +276,20 @@ Proof.
   { intros st msg Hg. destruct (send_trailing c s st msg) as [[a b] d] eqn:E.
     inversion Hg; subst. eapply send_trailing_inv; eauto. }
   destruct e as [[st msg| |]|].
-  - eapply G; eauto.
+  - destruct (aexit_grpc_ok_unary_as_exception && (st =? status_ok) && negb (server_streaming c) && negb (msg_done s));
+      eapply G; eauto.
   - eapply G; eauto.
   - inversion H; subst. exact Hi.
   - destruct (negb (server_streaming c) && negb (msg_done s)); eapply G; eauto.
 Qed.
 
-(* the endings after which __aexit__ sends nothing although the handler sent nothing terminal:
-   a BaseException (D4), and GRPCError(Status.OK) on a unary reply without a message (the implicit
-   send_trailing_metadata refuses it with ProtocolError, which request_handler only logs) *)
+(* the ending after which __aexit__ sends nothing although the handler sent nothing terminal:
+   a BaseException (D4).  (GRPCError(Status.OK) on a unary reply without a message used to be a second one:
+   repaired defect D42, now answered UNKNOWN.) *)
 Definition silent_exit (c : card) (s : sstate) (e : option exn) : bool :=
   negb (trail_done s) && negb (cancel_done s) &&
   match e with
   | Some EBase => true
-  | Some (EGRPC st _) => (st =? status_ok) && negb (server_streaming c) && negb (msg_done s)
   | _ => false
   end.
 
@@ -298,8 +301,8 @@ Proof.
   bust s; destruct m; cbn in Hi; try discriminate Hi; cbn in H, Hs;
     try (inversion H; subst; reflexivity);
     destruct e as [[st msg| |]|]; try discriminate Hs;
-    destruct c; cbn in H, Hs; unfold send_trailing in H; cbn in H;
-    try (destruct (st =? status_ok); try discriminate Hs; cbn in H);
+    destruct c; cbn in H; unfold send_trailing in H; cbn in H;
+    try (destruct (st =? status_ok); cbn in H);
     inversion H; subst; reflexivity.
 Qed.
 
@@ -370,7 +373,7 @@ Proof.
 Qed.
 
 (* liveness (the strongest true form): the handler came to an end, the client did not reset the stream, and
-   the ending is not one of the two silent ones  ==>  exactly one terminal *)
+   the ending is not the silent one (BaseException, D4)  ==>  exactly one terminal *)
 Theorem exactly_one_terminal_partial known hs e p :
   let r := run_call known hs e p in
   r_end r <> KHang -> reset_kind (r_end r) = false ->
@@ -407,7 +410,7 @@ Proof.
     destruct (aexit (e_card e) (init_state e) (Some (EGRPC deadline_status_cancelled None))) as [s1 out] eqn:Ea.
     cbn [r_out r_end r_pre]. intros _ _ _.
     eapply aexit_done; [apply init_inv | exact Ea |].
-    unfold silent_exit, init_state. cbn. destruct (server_streaming (e_card e)); reflexivity.
+    unfold silent_exit, init_state. cbn. reflexivity.
 Qed.
 
 (* ------------------------------------------------------------------------------------------------ *)
@@ -568,7 +571,8 @@ Qed.
 Definition implicit_status (c : card) (s : sstate) (e : option exn) : option (Z * option (list Z)) :=
   match e with
   | Some (EGRPC st m) =>
-      if (st =? status_ok) && negb (server_streaming c) && negb (msg_done s) then None else Some (st, m)
+      if (st =? status_ok) && negb (server_streaming c) && negb (msg_done s) then Some aexit_exception
+      else Some (st, m)
   | Some EExc => Some aexit_exception
   | Some EBase => None
   | None => if negb (server_streaming c) && negb (msg_done s) then Some aexit_unary_missing else Some aexit_normal
@@ -758,8 +762,9 @@ Proof.
     destruct (Himp Hk eq_refl eq_refl eq_refl) as (Hfs & Hcnt).
     rewrite Hfs in Hf. unfold implicit_status in Hf.
     destruct (exit_exn (r_end r)) as [[st sm| |]|] eqn:Ex.
-    + destruct ((st =? status_ok) && negb (server_streaming (e_card e)) && negb (msg_done (r_pre r))) eqn:Eb;
-        [discriminate|]. injection Hf as Hst Hm. subst st sm. split; [right; right; eauto|].
+    + destruct ((st =? status_ok) && negb (server_streaming (e_card e)) && negb (msg_done (r_pre r))) eqn:Eb.
+      { exfalso. destruct aexit_constants as (A & _). rewrite A in Hf. inversion Hf. }
+      injection Hf as Hst Hm. subst st sm. split; [right; right; eauto|].
       intros Hu. rewrite Hcnt. rewrite Hu, Z.eqb_refl in Eb. cbn in Eb.
       destruct (msg_done (r_pre r)) eqn:Em; [apply K4; auto | discriminate].
     + exfalso. destruct aexit_constants as (A & _). rewrite A in Hf. inversion Hf.
@@ -819,6 +824,26 @@ Proof.
   - intros Hk. rewrite Hk in Hx. discriminate.
 Qed.
 
+(* repaired defect D42: GRPCError(Status.OK) from a unary-reply handler that sent no message is answered like
+   any other exception -- UNKNOWN "Internal Server Error", exactly one terminal *)
+Theorem grpc_ok_without_message_status known hs e p t m :
+  validate known hs = VAccept t -> t <> TExpired ->
+  let r := run_call known hs e p in
+  exit_exn (r_end r) = Some (EGRPC status_ok m) -> reset_kind (r_end r) = false ->
+  trail_done (r_pre r) = false -> cancel_done (r_pre r) = false ->
+  server_streaming (e_card e) = false -> msg_done (r_pre r) = false ->
+  final_status (r_out r) = Some (2, Some internal_msg) /\ accepted (r_out r) = true.
+Proof.
+  intros Hv Hne. cbn zeta. intros Hx Hr Ht Hc Hu Hm.
+  assert (Hk : r_end (run_call known hs e p) <> KHang).
+  { intros Hk. rewrite Hk in Hx. discriminate. }
+  split.
+  - rewrite (status_at_exit known hs e p t Hv Hne); auto.
+    rewrite Hx. unfold implicit_status. rewrite Hu, Hm, Z.eqb_refl. reflexivity.
+  - apply exactly_one_terminal_partial; auto. rewrite Hx. unfold silent_exit.
+    rewrite andb_false_r. reflexivity.
+Qed.
+
 Theorem exception_status known hs e p t :
   validate known hs = VAccept t -> t <> TExpired ->
   let r := run_call known hs e p in
@@ -851,7 +876,7 @@ Proof.
       destruct c; try discriminate Hd; repeat split; discriminate. }
   destruct Hx as (Hx & Hr & Hk). split.
   - eapply grpc_error_status; eauto. intros H. discriminate H.
-  - apply exactly_one_terminal_partial; auto. rewrite Hx. unfold silent_exit. cbn.
+  - apply exactly_one_terminal_partial; auto. rewrite Hx. unfold silent_exit.
     rewrite andb_false_r. reflexivity.
 Qed.
 
@@ -1093,11 +1118,9 @@ Proof.
   vm_compute. repeat split.
 Qed.
 
-(* the second silent ending: GRPCError(Status.OK) from a unary handler that sent no message *)
-Theorem grpc_ok_without_message_refuted :
-  exists known hs e p, let r := run_call known hs e p in
-    r_end r = KFin (RaiseGRPC status_ok None) /\ accepted (r_out r) = false /\ r_out r = [].
-Proof.
-  exists known_paths, good_request, (std_env UU ENone), (mkP [Recv] (Fin (RaiseGRPC status_ok None)) Honour).
-  vm_compute. repeat split.
-Qed.
+(* the former second silent ending (D42, repaired): the witness that used to produce no frame at all *)
+Example grpc_ok_without_message_answered :
+  let r := run_call known_paths good_request (std_env UU ENone) (mkP [Recv] (Fin (RaiseGRPC status_ok None)) Honour) in
+  r_end r = KFin (RaiseGRPC status_ok None) /\ accepted (r_out r) = true /\
+  r_out r = [FHeaders 200 true (Some 2) (Some internal_msg) true].
+Proof. vm_compute. repeat split. Qed.
